@@ -46,7 +46,17 @@ def close(a, b, tol=1e-9):
 
 
 def check_op(env, o, want, what, linear=True, tol=1e-9):
-    """declared metadata vs observed, dense matrix vs `want`, adjoint family vs (conjugate) transposes"""
+    """declared metadata vs observed, dense matrix vs `want`, adjoint family vs (conjugate) transposes
+    (an exception raised by the object under test is a failure of the property, not of the harness)"""
+    try:
+        return _check_op(env, o() if callable(o) and not hasattr(o, "input_shape") else o, want, what, linear, tol)
+    except common.Infra:
+        raise
+    except Exception as ex:  # noqa: BLE001
+        return {"raised": repr(ex)[:300], "what": what}
+
+
+def _check_op(env, o, want, what, linear=True, tol=1e-9):
     fails = {}
     n, m = int(o.input_size), int(o.output_size)
     if list(o.matrix_shape) != [G.size(G.lst(o.output_shape)), G.size(G.lst(o.input_shape))]:
@@ -103,8 +113,8 @@ def cases(env, rng, thorough=False, parts=("stacks", "freeze", "circ", "conv")):
             for co in (True, False):
                 n = 3
                 ops, Ms = zip(*[mat(m, n, cplx) for m in outs])
-                V = linop.VerticalStack(list(ops), collapse_output=co)
-                yield (f"VerticalStack{outs} collapse={co} c={cplx}", ("vstack", tuple(outs), co, cplx), check_op(env, V, np.vstack(Ms), "VerticalStack"))
+                yield (f"VerticalStack{outs} collapse={co} c={cplx}", ("vstack", tuple(outs), co, cplx),
+                       check_op(env, lambda: linop.VerticalStack(list(ops), collapse_output=co), np.vstack(Ms), "VerticalStack"))
         for shp in ([(2, 3), (2, 3)], [(2, 3), (3, 3)], [(2, 2), (2, 3)], [(1, 2), (2, 1), (2, 2)]):
             for ci in (True, False):
                 for co in (True, False):
@@ -205,19 +215,14 @@ def cases(env, rng, thorough=False, parts=("stacks", "freeze", "circ", "conv")):
         v1 = vals(rng, (n1,), cplx).astype(np.complex128)
         v2 = vals(rng, (n2,), cplx).astype(np.complex128)
         try:
-            F0 = Op.freeze(0, jnp.asarray(v1 if cplx else v1.real, dtype=dt))
-            yield (f"freeze(0) c={cplx}", ("freeze", 0, cplx), check_op(env, F0, lambda x: G1 @ v1 + G2 @ x, "freeze", linear=False))
-            F1 = Op.freeze(1, jnp.asarray(v2 if cplx else v2.real, dtype=dt))
-            yield (f"freeze(1) c={cplx}", ("freeze", 1, cplx), check_op(env, F1, lambda x: G1 @ x + G2 @ v2, "freeze", linear=False))
+            yield (f"freeze(0) c={cplx}", ("freeze", 0, cplx), check_op(env, lambda: Op.freeze(0, jnp.asarray(v1 if cplx else v1.real, dtype=dt)), lambda x: G1 @ v1 + G2 @ x, "freeze", linear=False))
+            yield (f"freeze(1) c={cplx}", ("freeze", 1, cplx), check_op(env, lambda: Op.freeze(1, jnp.asarray(v2 if cplx else v2.real, dtype=dt)), lambda x: G1 @ x + G2 @ v2, "freeze", linear=False))
         except Exception as ex:  # noqa: BLE001
             yield (f"freeze c={cplx}", ("freeze", cplx), {"raised": repr(ex)[:200]})
         Fn = Function(((n1,), (n2,)), output_shape=(m,), eval_fn=lambda x, y: J1 @ x + J2 @ y, input_dtypes=np.dtype(dt), output_dtype=np.dtype(dt))
-        S0 = Fn.slice(0, jnp.asarray(v2 if cplx else v2.real, dtype=dt))
-        yield (f"Function.slice(0) c={cplx}", ("fslice", 0, cplx), check_op(env, S0, lambda x: G1 @ x + G2 @ v2, "Function.slice", linear=False))
-        S1 = Fn.slice(1, jnp.asarray(v1 if cplx else v1.real, dtype=dt))
-        yield (f"Function.slice(1) c={cplx}", ("fslice", 1, cplx), check_op(env, S1, lambda x: G1 @ v1 + G2 @ x, "Function.slice", linear=False))
-        Jn = Fn.join()
-        yield (f"Function.join c={cplx}", ("fjoin", cplx), check_op(env, Jn, lambda x: G1 @ x[:n1] + G2 @ x[n1:], "Function.join", linear=False))
+        yield (f"Function.slice(0) c={cplx}", ("fslice", 0, cplx), check_op(env, lambda: Fn.slice(0, jnp.asarray(v2 if cplx else v2.real, dtype=dt)), lambda x: G1 @ x + G2 @ v2, "Function.slice", linear=False))
+        yield (f"Function.slice(1) c={cplx}", ("fslice", 1, cplx), check_op(env, lambda: Fn.slice(1, jnp.asarray(v1 if cplx else v1.real, dtype=dt)), lambda x: G1 @ v1 + G2 @ x, "Function.slice", linear=False))
+        yield (f"Function.join c={cplx}", ("fjoin", cplx), check_op(env, lambda: Fn.join(), lambda x: G1 @ x[:n1] + G2 @ x[n1:], "Function.join", linear=False))
     # ---- CircularConvolve / Convolve arithmetic -----------------------------------------------
     scal = [2.0, -0.5, 3, 1j, 2 - 1j, np.float64(2.0), np.complex128(1 + 1j)] if thorough else [2.0, 2 - 1j]
     circ_cfgs = [((4,), (4,), None), ((3,), (5,), None), ((2, 3), (3, 4), None), ((2, 2), (2, 4, 3), 2), ((2, 2, 3), (2, 4, 3), 2), ((3,), (2, 5), 1), ((2, 3), (2, 5), 1)]
@@ -234,11 +239,11 @@ def cases(env, rng, thorough=False, parts=("stacks", "freeze", "circ", "conv")):
             except Exception as ex:  # noqa: BLE001
                 continue
             DA, DB = dense(env, A), dense(env, B)
-            yield (f"Circ{hs}/{ins}/{nd} A+B c={cplx_h}", ("circ+", hs, ins, nd, cplx_h), check_op(env, A + B, DA + DB, "CircularConvolve.__add__", tol=1e-8))
-            yield (f"Circ{hs}/{ins}/{nd} A-B c={cplx_h}", ("circ-", hs, ins, nd, cplx_h), check_op(env, A - B, DA - DB, "CircularConvolve.__sub__", tol=1e-8))
+            yield (f"Circ{hs}/{ins}/{nd} A+B c={cplx_h}", ("circ+", hs, ins, nd, cplx_h), check_op(env, lambda: A + B, DA + DB, "CircularConvolve.__add__", tol=1e-8))
+            yield (f"Circ{hs}/{ins}/{nd} A-B c={cplx_h}", ("circ-", hs, ins, nd, cplx_h), check_op(env, lambda: A - B, DA - DB, "CircularConvolve.__sub__", tol=1e-8))
             for c in scal:
                 for nm, f, W in (("c*A", lambda: c * A, c * DA), ("A*c", lambda: A * c, c * DA), ("A/c", lambda: A / c, DA / c)):
-                    yield (f"Circ{hs}/{ins}/{nd} {nm} c={c!r} ch={cplx_h}", ("circ", nm, hs, ins, nd, repr(c), cplx_h), check_op(env, f(), W, "CircularConvolve " + nm, tol=1e-8))
+                    yield (f"Circ{hs}/{ins}/{nd} {nm} c={c!r} ch={cplx_h}", ("circ", nm, hs, ins, nd, repr(c), cplx_h), check_op(env, f, W, "CircularConvolve " + nm, tol=1e-8))
     for mode in (("full", "valid", "same") if "conv" in parts else ()):
         for hs, ins in ((((2,), (4,)), ((3,), (3,)), ((2, 2), (3, 4))) if thorough else (((2,), (4,)), ((2, 2), (3, 4)))):
             for cplx_h in (False, True):
@@ -246,11 +251,11 @@ def cases(env, rng, thorough=False, parts=("stacks", "freeze", "circ", "conv")):
                 mk = lambda: linop.Convolve(jnp.asarray(vals(rng, hs, cplx_h), dtype=hdt), ins, input_dtype=np.dtype(hdt), mode=mode)  # noqa: E731
                 A, B = mk(), mk()
                 DA, DB = dense(env, A), dense(env, B)
-                yield (f"Conv{hs}/{ins}/{mode} A+B c={cplx_h}", ("conv+", hs, ins, mode, cplx_h), check_op(env, A + B, DA + DB, "Convolve.__add__"))
-                yield (f"Conv{hs}/{ins}/{mode} A-B c={cplx_h}", ("conv-", hs, ins, mode, cplx_h), check_op(env, A - B, DA - DB, "Convolve.__sub__"))
+                yield (f"Conv{hs}/{ins}/{mode} A+B c={cplx_h}", ("conv+", hs, ins, mode, cplx_h), check_op(env, lambda: A + B, DA + DB, "Convolve.__add__"))
+                yield (f"Conv{hs}/{ins}/{mode} A-B c={cplx_h}", ("conv-", hs, ins, mode, cplx_h), check_op(env, lambda: A - B, DA - DB, "Convolve.__sub__"))
                 for c in (2.0, 3, 2 - 1j) if cplx_h else (2.0, 3, -0.5):
                     for nm, f, W in (("c*A", lambda: c * A, c * DA), ("A*c", lambda: A * c, c * DA), ("A/c", lambda: A / c, DA / c)):
-                        yield (f"Conv{hs}/{ins}/{mode} {nm} c={c!r} ch={cplx_h}", ("conv", nm, hs, ins, mode, repr(c), cplx_h), check_op(env, f(), W, "Convolve " + nm))
+                        yield (f"Conv{hs}/{ins}/{mode} {nm} c={c!r} ch={cplx_h}", ("conv", nm, hs, ins, mode, repr(c), cplx_h), check_op(env, f, W, "Convolve " + nm))
 
 
 # ----------------------------------------------------------------------------- stacks with a Lean model
